@@ -181,7 +181,26 @@ func genCors(r *Rng) Sx {
 			reqs[k] = q.Sx()
 		}
 	}
-	return L(cfg, t.Sx(), reqs, mut)
+	// the configured predicate is the user's code and may change its mind between two requests (a tenant list that is
+	// edited): each request is judged by what the predicate says then
+	flip := Ls{}
+	if nreq >= 2 && len(fn) > 0 && r.Pct(40) {
+		acc2 := []string{}
+		for _, c := range []string{origin, strings.ToLower(origin), "http://other.example"} {
+			if r.Pct(40) {
+				acc2 = append(acc2, c)
+			}
+		}
+		flip = L(1+r.Intn(nreq-1), Strs(acc2))
+		for k := range reqs { // the same origin before and after
+			q := sxReq(reqs[k])
+			if origin != "" {
+				q.Set("Origin", origin)
+			}
+			reqs[k] = q.Sx()
+		}
+	}
+	return L(cfg, t.Sx(), reqs, mut, flip)
 }
 
 // the table without the routes of (method, full path) in the service of that root
@@ -208,7 +227,23 @@ func removeRouteOn(c *restful.Container, root, method, full string) {
 	}
 }
 
+// what the predicate of the configuration currently accepts (swapped by runCors between two requests of a sequence)
+type accepted struct{ m map[string]bool }
+
+func accFromSx(l Sx) map[string]bool {
+	acc := map[string]bool{}
+	for _, s := range sxStrs(l) {
+		acc[s] = true
+	}
+	return acc
+}
+
 func corsFromSx(cfg Sx) restful.CrossOriginResourceSharing {
+	c, _ := corsFromSxAcc(cfg)
+	return c
+}
+
+func corsFromSxAcc(cfg Sx) (restful.CrossOriginResourceSharing, *accepted) {
 	c := restful.CrossOriginResourceSharing{
 		ExposeHeaders:  sxStrs(sxNth(cfg, 0)),
 		AllowedHeaders: sxStrs(sxNth(cfg, 1)),
@@ -217,14 +252,12 @@ func corsFromSx(cfg Sx) restful.CrossOriginResourceSharing {
 		MaxAge:         sxInt(sxNth(cfg, 5)),
 		CookiesAllowed: sxBool(sxNth(cfg, 6)),
 	}
+	acc := &accepted{}
 	if f := sxList(sxNth(cfg, 3)); len(f) > 0 {
-		acc := map[string]bool{}
-		for _, s := range sxStrs(f[0]) {
-			acc[s] = true
-		}
-		c.AllowedDomainFunc = func(o string) bool { return acc[o] }
+		acc.m = accFromSx(f[0])
+		c.AllowedDomainFunc = func(o string) bool { return acc.m[o] }
 	}
-	return c
+	return c, acc
 }
 
 func runCors(raw Sx) (Sx, Sx) {
@@ -240,7 +273,13 @@ func runCors(raw Sx) (Sx, Sx) {
 	pr1, pr2 := &probe{}, &probe{}
 	c1, kept, _ := buildContainer(t, pr1)
 	c2, _, _ := buildContainer(t, pr2)
-	cors := corsFromSx(cfgSx)
+	var flip Sx = Ls{}
+	cut2 := -1
+	if len(sxList(raw)) > 4 && len(sxList(sxNth(raw, 4))) == 2 {
+		flip = sxNth(raw, 4)
+		cut2 = sxInt(sxNth(flip, 0))
+	}
+	cors, acc := corsFromSxAcc(cfgSx)
 	cors.Container = c1
 	c1.Filter(cors.Filter) // one filter value serves the whole sequence
 	o := NewOracles()
@@ -258,6 +297,9 @@ func runCors(raw Sx) (Sx, Sx) {
 			removeRouteOn(c1, root, method, full)
 			removeRouteOn(c2, root, method, full)
 			tNow = withoutRoute(t, root, method, full)
+		}
+		if k == cut2 {
+			acc.m = accFromSx(sxNth(flip, 1))
 		}
 		q := sxReq(rs)
 		*pr1, *pr2 = probe{}, probe{}
@@ -280,7 +322,10 @@ func runCors(raw Sx) (Sx, Sx) {
 		// what the filter served before)
 		pr3 := &probe{}
 		c3, _, _ := buildContainer(tNow, pr3)
-		cors3 := corsFromSx(cfgSx)
+		cors3, acc3 := corsFromSxAcc(cfgSx)
+		if cut2 >= 0 && k >= cut2 {
+			acc3.m = accFromSx(sxNth(flip, 1))
+		}
 		cors3.Container = c3
 		c3.Filter(cors3.Filter)
 		rec4 := httptest.NewRecorder()
@@ -294,7 +339,7 @@ func runCors(raw Sx) (Sx, Sx) {
 		}
 		tabulateRouting(o, kept, q.Path)
 	}
-	return L(o.Sx(), cfgSx, kept.Sx(), Ls(reqsSx), mut), obs
+	return L(o.Sx(), cfgSx, kept.Sx(), Ls(reqsSx), mut, flip), obs
 }
 
 func init() { domains["cors"] = domain{gen: genCors, run: runCors} }
